@@ -1,7 +1,7 @@
 (* The notifications of a transfer may be replayed in any ancestors-first order (in
    particular: with the notification of every regular file delayed to any later position,
    whatever the order in which file contents complete): the result is the view of the new
-   destination. *)
+   destination (honest sender: hard-link entries carry the metadata of the entry they name). *)
 From Coq Require Import List NArith Lia Bool Sorting.Sorted Sorting.Permutation.
 From FS Require Import Sx Model.Path Model.Stat Model.Diff Model.AbsDest
   Proofs.Lex Proofs.PathP Proofs.DiffP Proofs.AbsDestP Proofs.ReceiveP Proofs.ReplayP.
@@ -17,11 +17,12 @@ Qed.
 
 Theorem notify_order_independent_proof (H : bytes -> bytes) (hdr : stat -> bytes) d A B :
   wf_listing (map fst A) -> wf_listing (map fst B) -> links_ok B -> identity_faithful d A B ->
+  links_meta B -> link_xattrs_kept d A B ->
   let r := receive_abs H hdr Fresh d A B in
   forall ns', Permutation (ds_notifs r) ns' -> ancestors_first ns' ->
   forall p, alookup p (replay ns' (nview H hdr (dest_of A))) = alookup p (nview H hdr (ds_map r)).
 Proof.
-  intros HwA HwB Hl Hf. cbv zeta. intros ns' HP Haf p.
+  intros HwA HwB Hl Hf Hm Hxk. cbv zeta. intros ns' HP Haf p.
   destruct (notify_exact_proof H hdr d A B HwA HwB Hl Hf) as (_ & En & _).
   assert (HS : StronglySorted (fun a b => compare_path (npath a) (npath b) = Lt)
                  (ds_notifs (receive_abs H hdr Fresh d A B))).
@@ -36,5 +37,5 @@ Proof.
     rewrite !notif_of_path. exact F. }
   destruct (sorted_ancestors_first _ HS) as [Haf0 Hnd].
   rewrite (replay_order_independent _ ns' Hnd Haf0 HP Haf).
-  rewrite (ReceiveP.notify_replays_any H hdr d A B Fresh). reflexivity.
+  rewrite (ReceiveP.notify_replays_any H hdr d A B Fresh (receive_fresh_honest H hdr d A B HwA HwB Hl Hf Hm Hxk)). reflexivity.
 Qed.
